@@ -51,6 +51,7 @@ Section Run.
   | CSetWl (w : list (rframe * list rframe))          (* whitelists_.update(w) *)
   | CReplaceWl (w : list (rframe * list rframe))      (* whitelists_ = dict(w), keys unique *)
   | CUpdate
+  | CRemove (f : rframe)          (* del colliders_[f]; collider_frames.discard(f) *)
   | CPoke (o : nat) (p : nat)     (* the pose array a collider keeps a reference to was overwritten in place *)
   | CFill (objs : list (rframe * nat)) (w : list (rframe * list rframe))   (* fill_tree_with_colliders *)
   | CQuery (q : rcoll) (wl : list rframe)       (* aabb_overlapping_colliders(collider q, wl) *)
@@ -107,6 +108,8 @@ Section Run.
                                | None => heap _ _ _ _ st end)
                               (tmap _ _ _ _ st) (colliders _ _ _ _ st) (atree _ _ _ _ st) (wls _ _ _ _ st))
         | CUpdate => match r_update st with XOk s => ([0], s) | XErr e => ([xz e], st) end
+        | CRemove f => match remove_collider float rframe Nat.eqb rcoll rpose st f with
+                       | XOk s => ([0], s) | XErr e => ([xz e], st) end
         | CFill objs w =>
           match fill_tree_with_colliders float fmin fmax 0%float f_go_left f_cost_ok rframe Nat.eqb
                   rcoll rpose r_upd aabb_of st objs w with
